@@ -127,6 +127,12 @@ class C07(HistoryProp):
                     if src.n(2):
                         ops.append(['step', qid])
                     open_q.append(qid)
+            elif k == 12 and open_q and src.n(3) == 2:
+                # clear while a retract is suspended, then resume it: it finds nothing more and must not raise
+                ops.append(['clear', E])
+                ops.append(['load', E, HELPERS, True, 'ok'])
+                facts = []
+                ops.append(['step', src.pick(open_q)])
             elif k < 13:
                 p = gpattern(src, facts)
                 g = ('f', 'retractall', (p,))
